@@ -628,6 +628,7 @@ func (m *C08) AfterTx(e *eng.Engine, t *eng.TxRec) {
 			e.Violate("C08", "role", fmt.Sprintf("%s: %s succeeded although signer %s is not the %s (holders: %v)", where, msgName(msg), signer, r.why, r.holders))
 		}
 		m.writeSet(e, t, where)
+		m.roleEffect(e, t, where)
 		if len(m.samples) < 3 && rel == "current-holder" {
 			m.samples = append(m.samples, map[string]interface{}{"step": t.Step, "msg": eng.MsgJSON(e.App.Cdc, msg), "role": r.why, "relation": rel, "outcome": "accepted"})
 		}
@@ -717,4 +718,85 @@ func (m *C08) Finish(e *eng.Engine, cov map[string]interface{}) {
 	cov["cells"] = cells
 	cov["sealed_batch_step_checks"] = m.sealed
 	cov["samples"] = m.samples
+}
+
+// roleEffect: a successful role-moving message must move exactly the roles it names (otherwise the
+// notion of "former role holder" is void: a revoked issuer that silently keeps the role can still act).
+func (m *C08) roleEffect(e *eng.Engine, t *eng.TxRec, where string) {
+	pre, post := t.Pre.V(), t.Post.V()
+	bad := func(f string, a ...interface{}) {
+		e.Violate("C08", "role-change-effect", where+": "+fmt.Sprintf(f, a...))
+	}
+	switch x := t.Msgs[0].(type) {
+	case *basetypes.MsgUpdateClassIssuers:
+		c := pre.ClassByID[x.ClassId]
+		if c == nil {
+			return
+		}
+		want := map[string]bool{}
+		for a := range pre.Issuers[c.Key] {
+			want[a] = true
+		}
+		for _, r := range x.RemoveIssuers {
+			delete(want, r)
+		}
+		for _, a := range x.AddIssuers {
+			want[a] = true
+		}
+		got := post.Issuers[c.Key]
+		for a := range want {
+			if !got[a] {
+				bad("UpdateClassIssuers(%s) succeeded but %s is not an issuer afterwards", x.ClassId, a)
+			}
+		}
+		for a := range got {
+			if !want[a] {
+				bad("UpdateClassIssuers(%s) succeeded but %s is still (or newly) an issuer although the message removes it / does not add it", x.ClassId, a)
+			}
+		}
+	case *basetypes.MsgUpdateClassAdmin:
+		if c := post.ClassByID[x.ClassId]; c == nil || obs.Addr(c.Admin) != x.NewAdmin {
+			bad("UpdateClassAdmin(%s) succeeded but the admin is not %s", x.ClassId, x.NewAdmin)
+		}
+	case *basetypes.MsgUpdateProjectAdmin:
+		if p := post.ProjectByID[x.ProjectId]; p == nil || obs.Addr(p.Admin) != x.NewAdmin {
+			bad("UpdateProjectAdmin(%s) succeeded but the admin is not %s", x.ProjectId, x.NewAdmin)
+		}
+	case *baskettypes.MsgUpdateCurator:
+		if b := post.BasketByDenom[x.Denom]; b == nil || obs.Addr(b.Curator) != x.NewCurator {
+			bad("UpdateCurator(%s) succeeded but the curator is not %s", x.Denom, x.NewCurator)
+		}
+	case *basetypes.MsgSetClassCreatorAllowlist:
+		if post.Allowlist != x.Enabled {
+			bad("SetClassCreatorAllowlist(%v) succeeded but the allowlist flag is %v", x.Enabled, post.Allowlist)
+		}
+	case *basetypes.MsgAddClassCreator:
+		if !post.Creators[x.Creator] {
+			bad("AddClassCreator succeeded but %s is not on the list", x.Creator)
+		}
+	case *basetypes.MsgRemoveClassCreator:
+		if post.Creators[x.Creator] {
+			bad("RemoveClassCreator succeeded but %s is still on the list", x.Creator)
+		}
+	case *basetypes.MsgSealBatch:
+		if b := post.BatchByDenom[x.BatchDenom]; b == nil || b.Open {
+			bad("SealBatch(%s) succeeded but the batch is open", x.BatchDenom)
+		}
+	case *markettypes.MsgAddAllowedDenom:
+		if post.AllowedDenoms[x.BankDenom] == nil {
+			bad("AddAllowedDenom succeeded but %s is not allowed", x.BankDenom)
+		}
+	case *markettypes.MsgRemoveAllowedDenom:
+		if post.AllowedDenoms[x.Denom] != nil {
+			bad("RemoveAllowedDenom succeeded but %s is still allowed", x.Denom)
+		}
+	case *basetypes.MsgAddAllowedBridgeChain:
+		if !post.BridgeChains[lower(x.ChainName)] {
+			bad("AddAllowedBridgeChain succeeded but %s is not allowed", x.ChainName)
+		}
+	case *basetypes.MsgRemoveAllowedBridgeChain:
+		if post.BridgeChains[lower(x.ChainName)] {
+			bad("RemoveAllowedBridgeChain succeeded but %s is still allowed", x.ChainName)
+		}
+	}
 }
